@@ -8,6 +8,7 @@ C14 ops of the `schema` model driver (all stateless):
         -> "m <n>" (n characters matched) | "reject" | "fuel"
   adm t=<B|F|X|I|S|J> n=<0|1> src=<var|lit> v=<bool|int|float|nan|str00|str01|str10|str11|bin0|bin1|null>
         -> "refused:<Verdict>" | "bound:<stored|InvalidFloat|Json|panic>"
+  sysadm c=<mut|filter> f=<system field> v=<value class>   -> "refused:<Verdict>" | "defined" | "panic"
   key first=<byte or -> len=<n>     -> "KeyType" | "KeyLength" | "dalek" | "panic"
   sig len=<n>                        -> "SigLength" | "dalek"
   alias a=<hex identifier>           -> "reject" (not an identifier for the grammar) | "ok" | "sqlerr"
@@ -108,6 +109,20 @@ def step (d : Adm.Defects) (line : String) : Option String :=
               | (.admitted, some b) => "bound:" ++ boundStr b
               | (v, _) => "refused:" ++ verdictStr v)
     | _, _, _, _ => some "bad-op"
+  | "sysadm" :: rest =>
+    let fld : Option Adm.SysField := match kv' rest "f" with
+      | some "id" => some .id | some "room_id" => some .roomId | some "cdate" => some .cdate | some "mdate" => some .mdate
+      | some "_entity" => some .entity | some "_json" => some .json | some "_binary" => some .binary
+      | some "verifying_key" => some .verifyingKey | some "_signature" => some .signature | _ => none
+    let ctx : Option Adm.Ctx := match kv' rest "c" with
+      | some "mut" => some .mutation | some "filter" => some .filter | _ => none
+    match ctx, fld, (kv' rest "v").bind pvOf with
+    | some c, some f, some pv =>
+      some (match Adm.sysRequest c f pv with
+            | .refused v => "refused:" ++ verdictStr v
+            | .defined => "defined"
+            | .panic => "panic")
+    | _, _, _ => some "bad-op"
   | "key" :: rest =>
     match kv' rest "first", nat? rest "len" with
     | some f, some len =>
